@@ -44,3 +44,28 @@ Definition trace_eqb (a b : call_trace) : bool :=
 Definition view_eqb (a b : nat * bytes * bytes * bytes) : bool :=
   let '(c1, s1, t1, h1) := a in let '(c2, s2, t2, h2) := b in
   Nat.eqb c1 c2 && bytes_eqb s1 s2 && bytes_eqb t1 t2 && bytes_eqb h1 h2.
+
+(* ---- the call ran under context c (of origin o) and under no other ----
+   the value that arrives is c's, the deadline is c's unless the request timeout is earlier, the call ends exactly
+   when c is cancelled (it was beforehand, or it is the one cancelled during the call), and then Submit fails *)
+Definition governed_by (o : origin) (c : ctx_cfg) (timeout action : nat) (s : ctx_seen) : bool :=
+  Nat.eqb (n_value s) (who_code o) &&
+  Nat.eqb (n_deadline s) (earlier_deadline (x_deadline c) timeout) &&
+  Bool.eqb (n_ended s) (x_cancelled c || cancels action o) &&
+  Bool.eqb (n_failed s) (n_ended s).
+
+(* a per-operation context takes precedence over the runtime-wide one: whenever the operation names a context the
+   call runs under it, whatever the runtime context is (with or without a deadline, cancelled or not) *)
+Definition right_context (op rt : option ctx_cfg) (timeout action : nat) (s : ctx_seen) : bool :=
+  match op with
+  | Some c => governed_by FromOperation c timeout action s
+  | None =>
+    match rt with
+    | Some c => governed_by FromTransport c timeout action s
+    | None => Nat.eqb (n_value s) 2 && Nat.eqb (n_deadline s) timeout && negb (n_ended s) && negb (n_failed s)
+    end
+  end.
+
+Definition seen_eqb (a b : ctx_seen) : bool :=
+  Nat.eqb (n_value a) (n_value b) && Nat.eqb (n_deadline a) (n_deadline b) &&
+  Bool.eqb (n_ended a) (n_ended b) && Bool.eqb (n_failed a) (n_failed b).
